@@ -413,6 +413,11 @@ def _expr_sweep1(job):
     import pickle
     from . import exproracle as xo
     rng = random.Random(repr((seed, con.qual, "expr")))
+    # a quarter of the parallel jobs draw from a wider pool: four variables, products of up to five factors (size-dependent defects)
+    wide = str(seed).rsplit("/", 1)[-1] in ("3", "7", "11", "15") and "/" in str(seed)
+    xo.NAMES[:] = ["A", "B", "C", "D"] if wide else ["A", "B", "C"]
+    if wide:
+        n = max(30, n // 3)          # evaluation over 16 assignments and longer products: keep the wide jobs as long as the others
     pool = xo.Pool(rng.randrange(1 << 30))
     models = [xo.Model(xo.NAMES, rng.randrange(1 << 30)) for _ in range(2)]
     stats = {"evaluations": 0, "pre_false": 0, "failures": [], "errors": [], "distinct": set()}
@@ -441,10 +446,11 @@ def _expr_sweep1(job):
         stats["distinct"].add(repr(args))
         if why:
             stats["failures"].append({"function": con.qual, "args": {k: str(v) for k, v in args.items()}, "outcome": [out[0], str(out[1])],
-                                      "why": why, "pickle": base64.b64encode(pickle.dumps(args)).decode()})
+                                      "why": why, "pickle": base64.b64encode(pickle.dumps(args)).decode(), "names": list(xo.NAMES)})
             if len(stats["failures"]) >= want_failures:
                 break
     stats["distinct"] = len(stats["distinct"])
+    xo.NAMES[:] = ["A", "B", "C"]
     return stats
 
 
